@@ -113,6 +113,23 @@ Fixpoint kseq_filter (es : list kexpr) : list kexpr :=
   | e :: r => if kdroppable e then kseq_filter r else e :: kseq_filter r
   end.
 
+(** simplify.c:35-60, the operator (after simplification) is not a lambda: fold an arithmetic opcode application whose
+    operands are all constants when the handler-free evaluation yields a value, else leave the application alone *)
+Definition kfold_app (d : dyn) (f' : kexpr) (args' : list kexpr) : kexpr :=
+  match f' with
+  | KOp o =>
+      if is_arith o then
+        match kall_simple args' with
+        | Some cs => match fst (fst (fold_eval d o cs)) with
+                     | Some r => KLit r            (* simplify.c:56: always a fresh lit node, also around a fixnum *)
+                     | None => KApp f' args'
+                     end
+        | None => KApp f' args'
+        end
+      else KApp f' args'
+  | _ => KApp f' args'
+  end.
+
 Fixpoint ksimplify (d : dyn) (e : kexpr) (S : list ksubst) (inlam : bool) {struct e} : kexpr :=
   match e with
   | KApp f args =>
@@ -126,20 +143,7 @@ Fixpoint ksimplify (d : dyn) (e : kexpr) (S : list ksubst) (inlam : bool) {struc
               KApp (KLam id ps2 rest sv (ksimplify d body S2 true)) args2
             else KApp (KLam id ps rest sv (ksimplify d body S true)) args'
           else KApp f' args'
-      | _ =>
-          match f' with
-          | KOp o =>
-              if is_arith o then
-                match kall_simple args' with
-                | Some cs => match fst (fst (fold_eval d o cs)) with
-                             | Some r => KLit r            (* simplify.c:56: always a fresh lit node, also around a fixnum *)
-                             | None => KApp f' args'
-                             end
-                | None => KApp f' args'
-                end
-              else KApp f' args'
-          | _ => KApp f' args'
-          end
+      | _ => kfold_app d f' args'
       end
   | KLam id ps rest sv body => KLam id ps rest sv (ksimplify d body S true)
   | KCnd t a b =>
